@@ -80,9 +80,9 @@ type Sched struct {
 	Horizon  time.Duration
 	Quantum  time.Duration
 	started  time.Time
-	Deadlock bool   // set when the execution ended with unfinished threads and nothing to run
-	Dump     string // goroutine dump on deadlock
-	Diverged string // set when a replayed prefix could not be followed
+	Deadlock bool     // set when the execution ended with unfinished threads and nothing to run
+	Dump     string   // goroutine dump on deadlock
+	Diverged string   // set when a replayed prefix could not be followed
 	Panics   []string // panics raised (and recovered) in harness threads
 	// AfterStep, if set, is called by the scheduler goroutine after each step reached quiescence
 	// (used for per-step invariants).  It runs with the hook bypassed.
